@@ -370,7 +370,8 @@ def replay(case: Dict[str, Any]) -> List[str]:
 ROOTS = {
     # C07-F1, F2, F3 (stale cutoff cache, whole-record window, envelope distance) were repaired in /repo:
     # their witnesses stay in known_findings.json as regression tests, no input class is attached any more
-    # C07-F4, F5, F12 (faces of C03-F4, F9, F12) were repaired in /repo as well
+    # C07-F4, F5 (faces of C03-F4, F9) were repaired in /repo as well
+    "C07-F12": "lookup-scan-loses-neighbour",
     "C07-F6": "gene-at-0-with-origin-spanning-gene",
     "C07-F7": "superior-overlaps-over-origin",
     "C07-F8": "merged-cores-with-extenders",
